@@ -227,6 +227,7 @@ class Sim:
         self._observe_toggles(sink)
         self._observe_orchestrator(sink)
         self._observe_observers(sink)
+        self._observe_memories(sink)
 
     @staticmethod
     def _observe_orchestrator(sink: Callable[[str, dict[str, Any]], None]) -> None:
@@ -260,6 +261,35 @@ class Sim:
             finally:
                 orchestration._verif_sink('orch.rest', {})
         orchestration.adjust_tasks = adjust_tasks
+
+    @staticmethod
+    def _observe_memories(sink: Callable[[str, dict[str, Any]], None]) -> None:
+        """Observe (never alter) inventory.ResourceMemories: every recall (uid, from a listing or not, the identity of the memory that was
+        returned and of its parts, its noticed_by_listing flag) and every forget (`mem.recall`, `mem.forget`): events for Inventory.tla."""
+        from kopf._core.reactor import inventory
+        RM = inventory.ResourceMemories
+        if getattr(RM, '_verif_observed', False):
+            RM._verif_sink = sink
+            return
+        RM._verif_observed = True
+        RM._verif_sink = sink
+        RM._verif_alive = []           # the memories seen are kept alive: identities are not reused
+        orig_recall, orig_forget = RM.recall, RM.forget
+
+        async def recall(self: Any, raw_body: Any, *, memobase: Any = None, noticed_by_listing: bool = False, ephemeral: bool = False) -> Any:
+            m = await orig_recall(self, raw_body, memobase=memobase, noticed_by_listing=noticed_by_listing, ephemeral=ephemeral)
+            if not ephemeral:
+                RM._verif_alive.append(m)
+                RM._verif_sink('mem.recall', {'uid': (raw_body.get('metadata') or {}).get('uid') or '', 'listed': bool(noticed_by_listing), 'mem': id(m),
+                                              'flag': bool(m.noticed_by_listing), 'n': len(self._items),
+                                              'parts': [id(m.memo), id(m.error_throttler), id(m.indexing_memory), id(m.daemons_memory),
+                                                        id(m.daemons_memory.running_daemons), id(m.daemons_memory.forever_stopped)]})
+            return m
+
+        async def forget(self: Any, raw_body: Any) -> None:
+            RM._verif_sink('mem.forget', {'uid': (raw_body.get('metadata') or {}).get('uid') or ''})
+            return await orig_forget(self, raw_body)
+        RM.recall, RM.forget = recall, forget
 
     @staticmethod
     def _observe_observers(sink: Callable[[str, dict[str, Any]], None]) -> None:
